@@ -217,6 +217,7 @@ def run_harnesses(wc, harnesses, outdir, jobs=8, extra_env=None, solver_cli=None
 # pointer validity CBMC need not re-check (bounds checks, unwraps, overflow panics are explicit in MIR
 # and stay checked) -- this shrinks the formula of the iterator-heavy import harnesses several times.
 GROUP_ARGS = {"safe_rust": ["--no-memory-safety-checks"]}
+GROUP_JOBS = {"safe_rust": 2}
 
 
 def run_grouped(wc, harnesses, outdir, jobs=8):
@@ -228,8 +229,10 @@ def run_grouped(wc, harnesses, outdir, jobs=8):
         groups.setdefault(h.get("group") or "main", []).append(h)
     results = {}
     per = max(1, jobs // max(1, len(groups)))
+    # memory-hungry groups (about 10 GB per harness) run at most two harnesses at a time
+    per_group = {g: min(per, GROUP_JOBS.get(g, per)) for g in groups}
     with ThreadPoolExecutor(max_workers=len(groups)) as ex:
-        futs = {g: ex.submit(run_harnesses, wc, hs, outdir, per, None, None, GROUP_ARGS.get(g), g) for g, hs in groups.items()}
+        futs = {g: ex.submit(run_harnesses, wc, hs, outdir, per_group[g], None, None, GROUP_ARGS.get(g), g) for g, hs in groups.items()}
         for g, f in futs.items():
             results.update(f.result())
     return results
